@@ -58,7 +58,7 @@ class TranslateNode(Node, TranslatableTag):
     message_context_var = "context"
     # A placeholder is a `%(name)s` preceded by an even number of percent signs. Literal
     # percent signs in message text are doubled, so `%{{ you }}` is `%%%(you)s`.
-    re_vars = re.compile(r"(?<!%)(?:%%)*%\(([\w-]+)\)s")
+    re_vars = re.compile(r"(?<!%)(?:%%)*%\(([\w-]+\??)\)s")
 
     def __init__(
         self,
